@@ -379,6 +379,10 @@ def cleanupAll (s : St) : St :=
 
 def hasHandleIdx (s : St) (idx : Nat) : Bool := s.handles.any (fun w => (s.wk w).idx = idx)
 
+/-- `WorkerAvailable(idx)`: availability is only recorded for an index that (still) has a handle
+(the fix for the stale-notification defect) -/
+def wakePrim (s : St) (idx : Nat) : St := if hasHandleIdx s idx then setAvail s idx true else s
+
 /-- `handle_waker`: `(state, exit)` -/
 def handleWaker (cfg : Cfg) : Nat → St → St × Bool
   | 0, s => ({ s with fault := some .spinWaker }, false)
@@ -391,8 +395,7 @@ def handleWaker (cfg : Cfg) : Nat → St → St × Bool
       let s1 := { s0 with wq := q }
       match i with
       | .workerAvail idx =>
-        -- availability is only recorded for an index that (still) has a handle (fix for F3)
-        let s2 := if hasHandleIdx s1 idx then setAvail s1 idx true else s1
+        let s2 := wakePrim s1 idx
         let s3 := if !s2.paused then acceptAll cfg s2 else s2
         handleWaker cfg fuel s3
       | .worker w =>
